@@ -105,7 +105,9 @@ theorem serverJoinOne_clean {c c' : Ctx} {m : IrcMsg} {chn : String} (hc : CCtx 
   · dsimp only at hr
     split at hr
     · cases hr; cctx_tac
-    · obtain ⟨c1, h1, hr⟩ := Res.bind_eq_ok.1 hr
+    · split at hr
+      · cases hr; cctx_tac
+      obtain ⟨c1, h1, hr⟩ := Res.bind_eq_ok.1 hr
       obtain ⟨sp, hsp, hr⟩ := Res.bind_eq_ok.1 hr
       obtain ⟨rc, _, hr⟩ := Res.bind_eq_ok.1 hr
       cases hr
@@ -335,6 +337,9 @@ theorem cmdServerSvsjoin_clean {c c' : Ctx} {sid : Id} {m : IrcMsg} (hc : CCtx c
     · simp only [getChan_eq, putChan_putChan] at hr
       have cch := getD_chan_clean (lc := chanToLower chn) hI hchnc
       simp only [getChan_eq] at cch
+      split at hr
+      · obtain ⟨pn, hpn, hr⟩ := Res.bind_eq_ok.1 hr
+        cases hr; cctx_tac
       split at hr
       · cases hr
         exact hc.putChan cch
